@@ -18,7 +18,7 @@ from .absint import FALSE, NONE, TOP, TRUE, Undecided, exc, heap_key, is_handle,
 from .astutil import FUNC_TYPES, attr_chain, dotted
 from .effects import EffectDomain, exc_info_of, is_generator
 
-CALLABLE_TAGS = ("func", "method", "boundmethod", "bound", "partial", "builtin", "listappend", "attrgetter", "itemgetter", "methodcaller", "classref", "ctorref", "userfn", "setmethod")
+CALLABLE_TAGS = ("func", "method", "boundmethod", "bound", "partial", "builtin", "listappend", "attrgetter", "itemgetter", "methodcaller", "classref", "ctorref", "userfn", "setmethod", "decoderfactory", "decodermethod")
 
 
 def is_inst(v):
@@ -213,6 +213,8 @@ class ObjectDomain(EffectDomain):
             return [val(("kwdict", tuple((k, unbox_deep(v, st)) for k, v in items)), st)]
         if attr == "__class__" and is_inst(value):
             return [val(("classref", value[2]), st)]
+        if isinstance(value, tuple) and value[:1] == ("decoder",) and attr == "decode":
+            return [val(("decodermethod", value), st)]
         if is_inst(value):
             got = self._inst_attr(interp, value, attr, st, fr)
             return got if got is not None else [val(TOP, st)]
@@ -297,7 +299,10 @@ class ObjectDomain(EffectDomain):
         """self.<name> on the analysed object, when it is neither state nor environment: class-level tables."""
         if len(chain) != 2 or fr.receiver is None or st.has(fr.self_key + "." + chain[1]) or ".".join(chain) in self.attrs:
             return None
-        if self._method(fr.receiver, chain[1]) is not None:
+        meth = self._method(fr.receiver, chain[1])
+        if meth is not None:
+            if self._decorators(meth) & {"property", "cached_property"} and interp is not None:
+                return interp.inline(meth, {}, st, fr, receiver=fr.receiver)   # self.<property>: its getter runs
             return None
         got = self._class_attr_expr(fr.receiver, chain[1])
         if got is not None:
@@ -463,11 +468,23 @@ class ObjectDomain(EffectDomain):
             return [exc(("exc", "TypeError"), st)]
         if "classmethod" in decos:
             return interp.inline(f, argvals, st, fr, receiver=inst[2])
-        res = interp.inline(f, argvals, st, fr, receiver=inst[2], self_value=inst)
-        return self._wrap_generator(f, res, fr)
+        return self.run_function(interp, f, argvals, st, fr, receiver=inst[2], self_value=inst)
 
     def _wrap_generator(self, f, results, fr):
         return results
+
+    def run_function(self, interp, f, argvals, st, fr, **inline_kw):
+        """Inline ``f``; a generator function's body runs now and the call evaluates to the sequence of its yields
+        (as for generator functions called by name)."""
+        if isinstance(f, FUNC_TYPES) and is_generator(f) and getattr(self, "collect_yields", True) and not self._decorators(f) & {"inlineCallbacks", "contextmanager"}:
+            key = f"gen.{fr.depth + 1}"
+            out = []
+            for r in interp.inline(f, argvals, st.set(key, ()), fr, **inline_kw):
+                ys = r.state.get(key, ())
+                s2 = r.state.set(key, st.get(key, ())) if st.has(key) else type(st)(frozenset((k, v) for k, v in r.state.items if k != key), r.state.log)
+                out.append(exc(r.value, s2) if r.kind == "exc" else val(("tuple",) + tuple(ys), s2))
+            return out
+        return self._wrap_generator(f, interp.inline(f, argvals, st, fr, **inline_kw), fr)
 
     # -- decorators ----------------------------------------------------------------------------------
     # Decorators that do not change what a call of the function does, as far as this model goes: descriptors the
@@ -701,6 +718,13 @@ class ObjectDomain(EffectDomain):
                 n_ = st.get("ev.alloc", 0)
                 return [val(obj + (n_,), st.set("ev.alloc", n_ + 1))]
             return [val(obj, st)]
+        if tag == "decoderfactory" and not pos and not kw:
+            n = st.get("ev.decoders", 0)
+            return [val(("decoder", fn[1], n), st.set("ev.decoders", n + 1))]
+        if tag == "decodermethod":
+            args_ = dict(zip(("input", "final"), pos))
+            args_.update(dict(kw))
+            return self._decode(fn[1], args_.get("input"), args_.get("final", FALSE), st)
         if tag == "setmethod":
             cur = st.get(fn[1], None)
             if isinstance(cur, tuple) and cur[:1] == ("set",) and len(pos) <= 1 and not kw:
@@ -831,8 +855,7 @@ class ObjectDomain(EffectDomain):
         argvals = self._bind(f, pos, kw, not static)
         if argvals is None:
             return [exc(("exc", "TypeError"), st)]
-        res = interp.inline(f, argvals, st, fr, receiver=root, is_method=not static)
-        return self._wrap_generator(f, res, fr)
+        return self.run_function(interp, f, argvals, st, fr, receiver=root, is_method=not static)
 
     def call_bound_values(self, bound, pos, kw, st):
         obj = bound[1]
@@ -944,6 +967,37 @@ class ObjectDomain(EffectDomain):
                 else:
                     out.extend(interp.eval(node, r.state, fr))
             if decided:
+                return out
+        # codecs incremental decoders, folded on constant bytes: the standard library's own decoding of what was fed so far
+        if d == "codecs.getincrementaldecoder" and len(call.args) == 1 and not call.keywords and not (self.track(d) or d in self.results):
+            return [r if r.kind == "exc" else val(("decoderfactory", r.value), r.state) for r in interp.eval(call.args[0], st, fr)]
+        if isinstance(f_, ast.Attribute) and f_.attr == "decode" and isinstance(f_.value, (ast.Name, ast.Attribute)) and 1 <= len(call.args) + len(call.keywords) <= 2:
+            recv = interp.eval(f_.value, st, fr)
+            if recv and all(r.kind == "exc" or (isinstance(r.value, tuple) and r.value[:1] == ("decoder",)) for r in recv):
+                out = []
+                for r0 in recv:
+                    if r0.kind == "exc":
+                        out.append(r0)
+                        continue
+                    for r in interp.eval_list(list(call.args) + [k.value for k in call.keywords], r0.state, fr):
+                        if r.kind == "exc":
+                            out.append(r)
+                            continue
+                        args_ = dict(zip(("input", "final"), r.value[: len(call.args)]))
+                        args_.update({k.arg: v for k, v in zip(call.keywords, r.value[len(call.args):])})
+                        out.extend(self._decode(r0.value, args_.get("input"), args_.get("final", FALSE), r.state))
+                return out
+        if d in ("repr", "str") and len(call.args) == 1 and not call.keywords:
+            got = interp.eval(call.args[0], st, fr)
+            if got and all(r.kind == "exc" or is_inst(r.value) for r in got):
+                out = []
+                for r in got:
+                    if r.kind == "exc":
+                        out.append(r)
+                        continue
+                    name = "__repr__" if d == "repr" or not self._has_method(r.value[2], "__str__") else "__str__"
+                    res = self.call_method(interp, r.value, name, [], [], r.state, fr) if self._has_method(r.value[2], name) else None
+                    out.extend(res if res is not None else [val(("ret", d, r.value), r.state)])
                 return out
         if d == "vars" and len(call.args) == 1 and not call.keywords and isinstance(call.args[0], (ast.Name, ast.Attribute)):
             return interp.eval(ast.copy_location(ast.Attribute(value=call.args[0], attr="__dict__", ctx=ast.Load()), call), st, fr)   # vars(x) is x.__dict__
@@ -1126,10 +1180,10 @@ class ObjectDomain(EffectDomain):
                             if argvals is None:
                                 out.append(exc(("exc", "TypeError"), s2))
                             elif is_inst(pos[0]):
-                                out.extend(self._wrap_generator(mf, interp.inline(mf, argvals, s2, fr, receiver=pos[0][2], self_value=pos[0]), fr))
+                                out.extend(self.run_function(interp, mf, argvals, s2, fr, receiver=pos[0][2], self_value=pos[0]))
                             else:
                                 root = getattr(self, "root_class", None) or fr.receiver
-                                out.extend(self._wrap_generator(mf, interp.inline(mf, argvals, s2, fr, receiver=root), fr))
+                                out.extend(self.run_function(interp, mf, argvals, s2, fr, receiver=root))
                         elif pos and isinstance(pos[0], tuple) and pos[0][:1] in (("wobj",), ("new",)):
                             # Class.method(something that merely quacks like an instance): the method body runs with that object as self
                             argvals = self._bind(mf, pos, kw, False)
@@ -1228,9 +1282,31 @@ class ObjectDomain(EffectDomain):
     def pull(self, interp, seq, st, fr):
         return self._pull(interp, seq, st, fr)
 
+    def _decode(self, dec, data, final, st):
+        """<incremental decoder>.decode(data, final) -> results; the decoder's history lives in the state."""
+        import codecs
+        enc, n = dec[1], dec[2]
+        fed = st.get(f"dec.{n}", ())
+        ok_d, pd = self._py(data)
+        ok_f, pf = self._py(final)
+        if not (isinstance(enc, tuple) and enc[:1] == ("const",) and isinstance(enc[1], str) and ok_d and isinstance(pd, bytes) and ok_f and all(isinstance(x, tuple) for x in fed)):
+            return [val(TOP, st.set(f"dec.{n}", fed + (None,)))]
+        try:
+            real = codecs.getincrementaldecoder(enc[1])()
+            for chunk, fin in fed:
+                real.decode(chunk, fin)
+            text = real.decode(pd, bool(pf))
+        except LookupError:
+            return [exc(("exc", "LookupError"), st)]
+        except UnicodeDecodeError:
+            return [exc(("exc", "UnicodeDecodeError"), st)]
+        return [val(("const", text), st.set(f"dec.{n}", fed + ((pd, bool(pf)),)))]
+
     def _pull(self, interp, seq, st, fr):
         """One step of iterating ``seq`` (lazily): -> list of ("item", element, rest, state) | ("end", None, None, state) |
         ("exc", exception, None, state) | ("unknown", None, None, state)."""
+        if is_handle(seq):
+            seq = st.get(heap_key(seq), TOP)
         if isinstance(seq, tuple) and seq[:1] == ("iter",) and len(seq) == 2:
             seq = seq[1]
         if isinstance(seq, tuple) and seq[:1] in (("tuple",), ("lazyseq",)):
